@@ -15,6 +15,7 @@ func (v *Vue) evalAttributes(ctx VueContext, n *html.Node) (map[string]any, erro
 	}
 
 	results := map[string]any{}
+	var boundOrder []string // bound attribute names in source order, so that output does not depend on map iteration
 
 	var newAttrs []html.Attribute
 
@@ -48,6 +49,9 @@ func (v *Vue) evalAttributes(ctx VueContext, n *html.Node) (map[string]any, erro
 			if !helpers.IsTruthy(boundValue) {
 				continue
 			}
+			if _, seen := results[boundName]; !seen {
+				boundOrder = append(boundOrder, boundName)
+			}
 			results[boundName] = boundValue
 		default:
 			var err error
@@ -65,7 +69,8 @@ func (v *Vue) evalAttributes(ctx VueContext, n *html.Node) (map[string]any, erro
 	}
 
 	// Second pass: merge bound attributes with static ones
-	for attrName, boundValue := range results {
+	for _, attrName := range boundOrder {
+		boundValue := results[attrName]
 		// Check if there's a static attribute with the same name
 		staticIdx := -1
 		for i, a := range newAttrs {
@@ -330,22 +335,9 @@ func camelToKebab(s string) string {
 }
 
 // mergeStyles merges static and bound CSS styles, with bound values taking precedence.
+// Declarations keep their source order: a bound value replaces a static one in place, new ones are appended.
 func (v *Vue) mergeStyles(staticStyle, boundStyle string) string {
-	// Parse both styles into maps
-	staticMap := parseStyleMap(staticStyle)
-	boundMap := parseStyleMap(boundStyle)
-
-	// Merge: bound values override static ones
-	for k, v := range boundMap {
-		staticMap[k] = v
-	}
-
-	// Rebuild style string
-	var styles []string
-	for k, v := range staticMap {
-		styles = append(styles, k+":"+v+";")
-	}
-	return strings.Join(styles, "")
+	return joinStyleDecls(mergeStyleDecls(parseStyleDecls(staticStyle), parseStyleDecls(boundStyle)))
 }
 
 // parseStyleMap parses a CSS style string into a map of properties to values.
@@ -373,4 +365,50 @@ func parseStyleMap(style string) map[string]string {
 	}
 
 	return result
+}
+
+// styleDecl is one CSS declaration; declarations keep their source order.
+type styleDecl struct{ key, val string }
+
+// parseStyleDecls parses a CSS style string into ordered declarations (a later duplicate overrides in place).
+func parseStyleDecls(style string) []styleDecl {
+	var out []styleDecl
+	for _, part := range strings.Split(style, ";") {
+		part = strings.TrimSpace(part)
+		if part == "" {
+			continue
+		}
+		kv := strings.SplitN(part, ":", 2)
+		if len(kv) != 2 {
+			continue
+		}
+		out = mergeStyleDecls(out, []styleDecl{{strings.TrimSpace(kv[0]), strings.TrimSpace(kv[1])}})
+	}
+	return out
+}
+
+// mergeStyleDecls overrides same-named declarations of base in place and appends new ones in order.
+func mergeStyleDecls(base, over []styleDecl) []styleDecl {
+	for _, o := range over {
+		found := false
+		for i := range base {
+			if base[i].key == o.key {
+				base[i].val = o.val
+				found = true
+				break
+			}
+		}
+		if !found {
+			base = append(base, o)
+		}
+	}
+	return base
+}
+
+func joinStyleDecls(decls []styleDecl) string {
+	var sb strings.Builder
+	for _, d := range decls {
+		sb.WriteString(d.key + ":" + d.val + ";")
+	}
+	return sb.String()
 }
